@@ -4,6 +4,7 @@ package c08
 import (
 	"os"
 	"testing"
+	"verifharness/internal/known"
 	"verifharness/internal/watchdog"
 
 	"pgregory.net/rapid"
@@ -27,6 +28,16 @@ func TestC08MemoryEqualsRestart(t *testing.T) {
 		watchdog.Case(t, "C08", g, func(c *evid.Case) {
 			m := mgrsim.New(t, "C08", c)
 			defer m.Close()
+			// every mutating operation may also run in a transaction that is
+			// rolled back (error after success, or failed commit)
+			m.ExtraFates = map[string]bool{"extend": true, "markUsed": true, "rename": true, "importKey": true, "importScript": true, "newScope": true}
+			m.KnownF22 = func() bool {
+				if known.Open("F22") {
+					g.KnownHit("F22")
+					return true
+				}
+				return false
+			}
 			rolledBackThenCommitted := false
 			lastRB := 0
 			m.Run(t, weights, 5, maxSteps, 30, func(op string) {
